@@ -2,7 +2,6 @@
 
 from dataclasses import dataclass, field
 import datetime as dt
-from functools import partial
 import itertools as it
 import re
 from typing import Any, Final, Mapping, Optional
@@ -101,25 +100,30 @@ class ZorgFileCompiler(ZorgFileListener):
         self._add_tag("contexts", ctx.children[1].getText())
 
     def enterDate(self, ctx: ZorgFileParser.DateContext) -> None:  # noqa: D102
-        get_datetime = partial(
-            dt.datetime.strptime, ctx.DATE().getText(), "%Y-%m-%d"
-        )
+        try:
+            date = dt.datetime.strptime(
+                ctx.DATE().getText(), "%Y-%m-%d"
+            ).date()
+        except ValueError:
+            # The lexer also accepts e.g. 2024-02-30, which is NOT a date.
+            return
+
         if (
             self._s.in_note
             and self._s.ids_in_note == 1
             and self._s.note_date is None
         ):
-            self._s.note_date = get_datetime().date()
+            self._s.note_date = date
         elif self._s.in_h4_header:
-            self._s.h4_date = get_datetime().date()
+            self._s.h4_date = date
         elif self._s.in_h3_header:
-            self._s.h3_date = get_datetime().date()
+            self._s.h3_date = date
         elif self._s.in_h2_header:
-            self._s.h2_date = get_datetime().date()
+            self._s.h2_date = date
         elif self._s.in_h1_header:
-            self._s.h1_date = get_datetime().date()
+            self._s.h1_date = date
         elif self._s.in_first_comment:
-            self._s.file_date = get_datetime().date()
+            self._s.file_date = date
 
     def enterH1_header(
         self, ctx: ZorgFileParser.H1_headerContext
